@@ -31,6 +31,15 @@ type TV struct {
 	M map[string]TV `json:"m,omitempty"` // map entries / struct fields
 }
 
+// TextStringer prints as S through fmt (String method); TextError through Error.
+type TextStringer struct{ S string }
+
+func (t TextStringer) String() string { return t.S }
+
+type TextError struct{ S string }
+
+func (t *TextError) Error() string { return t.S }
+
 // Struct types known to the harness.
 type Item struct {
 	Title  string   `json:"title"`
@@ -228,6 +237,10 @@ func (t TV) Go() any {
 		return NamedFloat(t.F)
 	case "NamedString":
 		return NamedString(t.S)
+	case "Stringer":
+		return TextStringer{S: t.S}
+	case "error":
+		return &TextError{S: t.S}
 	case "FileMode":
 		return fs.FileMode(t.U)
 	case "Duration":
@@ -339,12 +352,12 @@ func (t TV) String() string {
 }
 
 // Constructors.
-func tvS(s string) TV            { return TV{K: "string", S: s} }
-func tvI(n int) TV               { return TV{K: "int", I: int64(n)} }
-func tvB(b bool) TV              { return TV{K: "bool", B: b} }
-func tvF(f float64) TV           { return TV{K: "float64", F: f} }
-func tvNil() TV                  { return TV{K: "nil"} }
-func tvMissing() TV              { return TV{K: "missing"} }
-func tvMap(m map[string]TV) TV   { return TV{K: "map", M: m} }
-func tvList(l ...TV) TV          { return TV{K: "slice", L: l} }
+func tvS(s string) TV             { return TV{K: "string", S: s} }
+func tvI(n int) TV                { return TV{K: "int", I: int64(n)} }
+func tvB(b bool) TV               { return TV{K: "bool", B: b} }
+func tvF(f float64) TV            { return TV{K: "float64", F: f} }
+func tvNil() TV                   { return TV{K: "nil"} }
+func tvMissing() TV               { return TV{K: "missing"} }
+func tvMap(m map[string]TV) TV    { return TV{K: "map", M: m} }
+func tvList(l ...TV) TV           { return TV{K: "slice", L: l} }
 func tvKind(k string, l ...TV) TV { return TV{K: k, L: l} }
